@@ -24,6 +24,9 @@ def _valid(a, b=None):
     return v
 
 
+NT = [0]     # calls in this process that really had to choose events
+
+
 def check_result(func, a, b, samples, remove_invalid, res, case):
     """Shared oracle for one call. res = returned tuple (with ret_idx)."""
     out = []
@@ -31,6 +34,7 @@ def check_result(func, a, b, samples, remove_invalid, res, case):
     n = len(a)
     valid = _valid(a, b)
     nv = int(valid.sum())
+    NT[0] += 0 < samples < (nv if remove_invalid else n)
     tags = {"func": func, "remove_invalid": remove_invalid,
             "req_gt_n": samples > n, "req_gt_valid": samples > nv,
             "constant": bool(nv > 1 and (np.ptp(a[valid]) == 0 or (
@@ -79,6 +83,7 @@ def _small_case(args):
     from dclab.cached import Cache
     out = []
     cnt = 0
+    NT[0] = 0
     allarr = list(itertools.product(range(len(ALPHA)), repeat=n))
     for k in range(chunk, len(allarr), nchunks):
         letters = allarr[k]
@@ -122,7 +127,7 @@ def _small_case(args):
                                     "not-reproducible", case,
                                     f"{r1[2]} vs {rr}"))
                     cnt += 1
-    return cnt, out
+    return cnt, out, NT[0]
 
 
 def generators(seed):
@@ -152,6 +157,7 @@ def _big_case(args):
     nv = int(_valid(a, b).sum())
     out = []
     cnt = 0
+    NT[0] = 0
     for samples in sorted({0, 1, 17, 300, n // 2, nv - 1, nv, nv + 1, n - 1,
                            n, n + 5}):
         if samples < 0:
@@ -166,7 +172,7 @@ def _big_case(args):
             out += check_result("downsample_rand", a, None, samples, rem, r,
                                 dict(case, func="downsample_rand"))
             cnt += 2
-    return cnt, out
+    return cnt, out, NT[0]
 
 
 def _dataset_case(args):
@@ -174,6 +180,7 @@ def _dataset_case(args):
     import dclab
     out = []
     cnt = 0
+    nt = 0
     n = 12
     rs = np.random.RandomState(seed + 3)
     x = np.round(rs.uniform(10, 100, n), 3)
@@ -227,6 +234,7 @@ def _dataset_case(args):
                             where, "mask-does-not-select-returned", case, "",
                             tags))
                     elig = nv if rem else len(sel)
+                    nt += 0 < samples < elig
                     expect = samples if 0 < samples <= elig else elig
                     if int(mask.sum()) != expect:
                         out.append(violation(
@@ -244,6 +252,7 @@ def _dataset_case(args):
             cnt += 1
             q = int(m.sum())
             expect = lim if 0 < lim < q else q
+            nt += 0 < lim < q
             case = {"kind": "limit", "seed": seed, "mask": mi, "limit": lim}
             if int(got.sum()) != expect or (got & ~m).any():
                 out.append(violation(
@@ -269,6 +278,7 @@ def _dataset_case(args):
             cnt += 1
             q = int(m.sum())
             expect = lim if 0 < lim < q else q
+            nt += 0 < lim < q
             case = {"kind": "limit-history", "seed": seed, "mask": mi,
                     "limit": lim}
             if int(got.sum()) != expect or (got & ~m).any():
@@ -285,7 +295,7 @@ def _dataset_case(args):
                     where, "mask-outside-filter", case, f"{r}",
                     {"func": "get_downsampled_scatter", "history": True}))
     ds.config["filtering"]["limit events"] = 0
-    return cnt, out
+    return cnt, out, nt
 
 
 def run(ctx):
@@ -299,19 +309,21 @@ def run(ctx):
     res += par.pmap(_big_case, [(nm, ctx.seed)
                                 for nm in generators(ctx.seed)])
     res += par.pmap(_dataset_case, [(ctx.seed,)])
-    for n, vs in res:
+    nontriv = 0
+    for n, vs, nt in res:
         cnt += n
         viols.extend(vs)
-    cov = {"evaluations": cnt, "distinct_nontrivial": cnt // 2,
+        nontriv += nt
+    cov = {"evaluations": cnt, "distinct_nontrivial": nontriv,
            "rule": "small: every array of length 1..4 (quick) / 5 over the "
                    "alphabet {0,1,1,2,NaN,inf} (b from 3 derived variants) "
                    "x every request 0..N+2 x both invalid modes x "
                    "{rand, grid}, each call repeated (cached / cache "
                    "cleared); large generated inputs x 11 request sizes; "
                    "dataset level: 3 filters x requests 0..N+2 x modes x "
-                   "linear/log, and the event limit 0..N+2; non-trivial "
-                   "(estimated conservatively) = half of the calls request "
-                   "fewer events than eligible",
+                   "linear/log, and the event limit 0..N+2; non-trivial = "
+                   "the call requests fewer events than are eligible, so "
+                   "that a choice has to be made (counted per call)",
            "samples": [{"a": [0, 4, 1, 3], "samples": 3,
                         "remove_invalid": True},
                        {"generator": "clustered-20000", "samples": 300},
@@ -341,10 +353,10 @@ def replay(case, ctx):
         return check_result("downsample_grid", a, b, case["samples"],
                             case["remove_invalid"], r, case)
     if case["kind"] == "big":
-        _, vs = _big_case((case["name"], case["seed"]))
+        vs = _big_case((case["name"], case["seed"]))[1]
         return [v for v in vs if v["case"]["samples"] == case["samples"]
                 and v["case"]["remove_invalid"] == case["remove_invalid"]
                 and v["case"]["func"] == case["func"]]
-    _, vs = _dataset_case((case["seed"],))
+    vs = _dataset_case((case["seed"],))[1]
     return [v for v in vs if all(v["case"].get(k) == case.get(k)
                                  for k in case)]
